@@ -309,3 +309,6 @@ func Join()       { panic("verifrt.Join: engine only") }
 
 // LockTrace lists every mutex acquisition so far as "<Lock|RLock>#<mutex number>@<thread A|B>" (engine only).
 func LockTrace() []string { panic("verifrt.LockTrace: engine only") }
+
+// JSONEncoded returns every value handed to a (*json.Encoder).Encode so far (engine only; the encoder is a stub).
+func JSONEncoded() []any { panic("verifrt.JSONEncoded: engine only") }
